@@ -95,7 +95,36 @@ def enumerate_cases(tier, seed):
     out.append(dict(layer=layer, slot="weight", qcls="quantized_bits", opts={"bits": 4}, deep="two", frozen=True, _seed=seed))
   out.append(dict(layer="QBatchNormalization", slot="weight", qcls="quantized_bits", opts={"bits": 4}, deep="two",
                   stats_only=True, _seed=seed))
+  # models that mix library layers with a layer class of the user's own: the caller passes custom_objects for HIS class,
+  # the library still has to supply its own classes and quantizers on every route
+  for layer, slot, qc in (("QDense", "weight", "quantized_bits"), ("QConv2D", "weight", "quantized_po2"),
+                          ("QActivation", "activation", "quantized_relu"), ("QLSTM", "weight", "ternary"),
+                          ("QDepthwiseConv2D", "weight", "quantized_bits"), ("QDense", "activation", "quantized_tanh")):
+    out.append(dict(layer=layer, slot=slot, qcls=qc, opts={}, deep="all" if tier == "thorough" else "two", user_layer=True,
+                    _seed=seed))
   return out
+
+
+_USER_LAYER = []
+
+
+def user_layer_class():
+  """A layer class that exists only in the caller's program (registered nowhere)."""
+  if not _USER_LAYER:
+    tf = common.tf_init()
+
+    class UserScale(tf.keras.layers.Layer):
+      def __init__(self, factor=1.5, **kwargs):
+        super().__init__(**kwargs)
+        self.factor = factor
+
+      def call(self, inputs):
+        return inputs * self.factor
+
+      def get_config(self):
+        return dict(super().get_config(), factor=self.factor)
+    _USER_LAYER.append(UserScale)
+  return _USER_LAYER[0]
 
 
 def build(case, default=False):
@@ -155,6 +184,8 @@ def build(case, default=False):
   if case.get("frozen"):
     lyr.trainable = False
   x = lyr(inp)
+  if case.get("user_layer"):
+    x = user_layer_class()(factor=0.75, name="user")(x)
   if len(x.shape) > 2:
     x = L.Flatten(name="flat")(x)
   x = qkeras.QDense(2, kernel_quantizer="quantized_bits(6,0,1)", bias_quantizer="quantized_bits(6,0,1)", name="head")(x)
@@ -193,17 +224,18 @@ def _safe_str(q):
     return "<str raises %s>" % type(e).__name__
 
 
-def apply_op(op, model, tmpdir, tag):
+def apply_op(op, model, tmpdir, tag, user=False):
   from qkeras import utils as qutils  # pylint: disable=import-outside-toplevel
+  co = {"UserScale": user_layer_class()} if user else None
   if op == "json":
-    m = qutils.quantized_model_from_json(model.to_json())
+    m = qutils.quantized_model_from_json(model.to_json(), **({"custom_objects": co} if co else {}))
     m.set_weights(model.get_weights())
     return m
   if op == "clone":
-    return qutils.clone_model(model)
+    return qutils.clone_model(model, **({"custom_objects": co} if co else {}))
   path = os.path.join(tmpdir, "m_%s.h5" % tag)
   model.save(path)
-  return qutils.load_qmodel(path, compile=False)
+  return qutils.load_qmodel(path, compile=False, **({"custom_objects": co} if co else {}))
 
 
 def run_case(case):
@@ -212,7 +244,7 @@ def run_case(case):
   viol = []
 
   def bad(clause, what, **d):
-    key = "%s:%s" % (clause, case["qcls"])
+    key = "%s:%s%s" % (clause, case["qcls"], ":user-layer" if case.get("user_layer") else "")
     if len(viol) < 6 and not any(v["key"] == key for v in viol):
       viol.append({"key": key, "what": what, "detail": dict(case=case, **d)})
   try:
@@ -249,7 +281,7 @@ def run_case(case):
         continue
       tag = "-".join(hist)
       try:
-        m = apply_op(hist[-1], src, tmpdir, tag)
+        m = apply_op(hist[-1], src, tmpdir, tag, user=bool(case.get("user_layer")))
       except Exception as e:  # pylint: disable=broad-except
         bad("op-raises:%s:%s" % (hist[-1], type(e).__name__), "history %r on %s(%s=%s(%r)): %s raised %s: %s" % (
             list(hist), case["layer"], case["slot"], case["qcls"], case["opts"], hist[-1], type(e).__name__, str(e)[:200]),
